@@ -150,6 +150,10 @@ var indexPrograms = []string{
 	"输入A、I\n令B = A\n遍历B：\n    输出 此",
 	"输入A、I\n如果I：\n    输出 A",
 	"输入A、I\n输出 A之I",
+	"输入A、I\n如何F？\n    输出 1abc\n输出（F）",
+	"输入A、I\n如何F？\n    输入T、L\n    输出 T % L\n输出（F：A、I）",
+	"输入A、I\n如何F？\n    输入T、L\n    输出 “{}{” % 【T】\n输出（F：A、I）",
+	"输入A、I\n定义T：\n    其甲设为1\n    如何改？\n        输入V\n        输出 “{#.}}” % 【V】\n令O = （新建T）\n输出 以O（改：A）",
 	"输入A、I\n令B = 【A，I】\n输出 B#I",
 }
 
